@@ -82,6 +82,21 @@ func c02Gen(p *simrt.Tape) any {
 				c02Op{At: t + []time.Duration{1, time.Second, 5 * time.Second}[p.Pick(3)], Kind: later, Job: j})
 		}
 	}
+	// several requests to schedule one name at the same instant, once the name is free (or while it is taken)
+	if p.Pct(20) {
+		j := p.Pick(len(pl.Jobs))
+		t := pl.Jobs[j].At + []time.Duration{-time.Second, 4 * time.Second, 4 * time.Second}[p.Pick(3)]
+		if pl.Jobs[j].Periodic {
+			t = 3 * time.Second
+			pl.Ops = append(pl.Ops, c02Op{At: 2 * time.Second, Kind: "cancel", Job: j})
+		}
+		if t > 0 {
+			for i, n := 0, p.Range(2, 3); i < n; i++ {
+				pl.Ops = append(pl.Ops, c02Op{At: t, Kind: "resched", Job: j})
+			}
+			pl.Ops = append(pl.Ops, c02Op{At: t + time.Second, Kind: []string{"cancel", "exists", "list", "run"}[p.Pick(4)], Job: j})
+		}
+	}
 	return pl
 }
 
@@ -457,6 +472,36 @@ func c02Oracle(pl *c02Plan, insts []*c02Inst, ops []*c02OpRec, horizon time.Dura
 			if o.err == nil {
 				return Viol("C02/duplicate-name-accepted", "%s job %s is alive (scheduled at %v, never cancelled) yet a second job of that name was accepted at %v", kind, name, in.schedAt, o.callT)
 			}
+		}
+	}
+	// of overlapping requests to schedule one name at most one is accepted (unless the accepted job has already
+	// started and so freed the name by the time the other request returned)
+	for i, a := range insts {
+		for _, b := range insts[i+1:] {
+			if a.name != b.name || !(a.schedCallStep < b.schedRetStep && b.schedCallStep < a.schedRetStep) {
+				continue
+			}
+			first, second := a, b
+			if b.schedRetStep < a.schedRetStep {
+				first, second = b, a
+			}
+			if !first.periodic && len(first.invs) > 0 && first.invs[0].startStep < second.schedRetStep {
+				continue
+			}
+			gone := false
+			for _, o := range ops {
+				switch o.op.Kind {
+				case "cancel", "cancelif", "cancelprefix", "ctxcancel", "run", "runif":
+					if sameName(o, first) && o.callStep < second.schedRetStep && o.retStep > first.schedCallStep {
+						gone = true // something may have withdrawn or started the first one in between
+					}
+				}
+			}
+			if gone || first.ctxCancelled {
+				continue
+			}
+			out.Probes["overlapping-schedule-requests"]++
+			return Viol("C02/duplicate-name-accepted", "two overlapping requests to schedule %s (steps %d..%d and %d..%d) were both accepted", a.name, a.schedCallStep, a.schedRetStep, b.schedCallStep, b.schedRetStep)
 		}
 	}
 	// a finished job's name can be scheduled again
